@@ -110,7 +110,7 @@ def main():
                     k_units.append(o.unit)
             try:
                 extraction += kanirun.prepare(scratch, k_units)
-                ht = args.harness_timeout or max(int(o.extra.get("budget", 0) or 0) for o in k_obls) or (1200 if args.tier == "quick" else 3600)
+                ht = args.harness_timeout or max([int(o.extra.get("budget", 0) or 0) for o in k_obls] + [1200 if args.tier == "quick" else 3600])
                 kres, kcmd, kout = kanirun.run_harnesses(scratch, k_obls, jobs=args.jobs, harness_timeout=ht)
                 cmds.append(kcmd)
                 results.update(kres)
